@@ -58,3 +58,21 @@ Theorem C15_capacity_restored_general : forall strat blen cap body s,
   /\ b_stack (brun strat blen (BEnterCls cap :: body ++ [BExitCls]) s) = b_stack s.
 Proof. exact capacity_restored. Qed.
 Print Assumptions C15_capacity_restored_general.
+
+(* SOURCE TIE (Gen/Contexts.v, regenerated from /repo's source on every run): `_FileBufferedContext.__exit__` on top of
+   `_CounterFuncContext.__exit__` has the shape the buffer model implements for BExitCls - count down and flush at zero,
+   THEN (in a finally: also when the flush raised) pop the saved capacity and restore it if one was saved; and
+   `__enter__` pushes the old capacity exactly when one was given. *)
+From SC Require Import Model.Ctx Gen.Contexts.
+Theorem C15_capacity_context_exit_is_the_source :
+  cprog_eqb (gen_cap_exit gen_counter_exit) (model_cap_exit model_counter_exit) = true.
+Proof. exact gen_cap_exit_is_model. Qed.
+Print Assumptions C15_capacity_context_exit_is_the_source.
+Theorem C15_capacity_context_enter_is_the_source :
+  cprog_eqb (gen_cap_enter CCountUp) (model_cap_enter CCountUp) = true.
+Proof. exact gen_cap_enter_is_model. Qed.
+Print Assumptions C15_capacity_context_enter_is_the_source.
+Theorem C15_restore_runs_on_both_paths : forall parent raises tr,
+  crun (model_cap_exit parent) raises tr -> In (CSeq CPop CRestoreIfSome) tr.
+Proof. exact cap_exit_always_restores. Qed.
+Print Assumptions C15_restore_runs_on_both_paths.
